@@ -512,3 +512,5 @@ HARNESSES = [
             covers=["collision"]),
 ]
 ASSUMPTIONS = ["thread pools run inline (sync providers take zero virtual time)", "values are compared as SMT terms: equality is proved for all provider constants"]
+from engine.harness import borrowed  # noqa: E402
+HARNESSES.append(borrowed("c08", "H08-bind", "H18-binding-next-to-payload"))   # dependency parameters keep their values next to every payload shape and signature
